@@ -312,9 +312,22 @@ def run_case_classified(sh, s, d, case, **kw):
         return None
 
 
+REGRESSION_SCRIPTS = [
+    {'seed': 7, 'script': [['commit', None], ['commit', None], ['backup', []], ['backup-unfinished', ['-Q']], ['commit', None], ['commit', None],
+                           ['commit', None], ['pack', None], ['backup', ['-Q']]]},
+    {'seed': 3, 'script': [['commit', None], ['commit', None], ['backup', []], ['backup-unfinished', ['-Q']], ['pack', None],
+                           ['backup-unfinished', ['-Q']]]},
+]
+
+
 def run_shard(params):
     logging.disable(logging.CRITICAL)
     sh = Shard(params)
+    if params.get('shard', 0) < len(REGRESSION_SCRIPTS):
+        # fixed regression scenarios (known findings until fix 0587220): empty incremental, pack, quick backup
+        ccase = dict(REGRESSION_SCRIPTS[params.get('shard', 0)])
+        guarded(sh, 'c18', ccase, lambda: run_case_classified(sh, ccase['seed'], sh.fresh_dir('c18'), ccase, script=[tuple(x) for x in ccase['script']]))
+        sh.count('scripted_regression_scenarios')
     for i in case_indices(params):
         if not sh.time_left():
             break
